@@ -376,6 +376,32 @@ func (e *explorer[T, A]) checkWrites(chain []Op, m0 *mview[T]) bool {
 			return false
 		}
 	}
+	// every ordered pair of writes through the SAME view object (a view must not remember anything of the write before):
+	// for the root and its direct slices of the small roots
+	if e.opt.OpPairs && len(chain) <= 1 && product(e.root) <= 12 {
+		ops := e.writeOps(m0)
+		for _, a := range ops {
+			for _, b := range ops {
+				w, err := build(e.be, e.root, chain, e.obs)
+				if err != nil {
+					return false
+				}
+				v, m := w.views[len(w.views)-1], w.models[len(w.models)-1]
+				e.st.WritePairs++
+				if p := try(func() { a.run(v, m); b.run(v, m) }); p != nil {
+					e.fail("write-pair-panics/"+a.kind+"+"+b.kind, chain, fmt.Sprintf("%s then %s through the same view panicked: %v", a.name, b.name, p.v), nil)
+					return false
+				}
+				if !e.verify(chain, w, "after-"+a.kind+"-then-"+b.kind+"-through-the-same-view") {
+					if f := e.lastFail(); f != nil {
+						f.Detail["writes"] = []string{a.name, b.name}
+						f.What += " [writes: " + a.name + " then " + b.name + "]"
+					}
+					return false
+				}
+			}
+		}
+	}
 	return true
 }
 
